@@ -151,8 +151,8 @@ class ipv4(packet_base):
         length = self.iplen
         if length > dlen:
             length = dlen # Clamp to what we've got
-        if self.frag != 0:
-            # We can't parse payloads!
+        if self.frag != 0 or self._nesting() >= self.MAX_NESTING:
+            # We can't parse payloads!  (Or are nested too deeply to try.)
             self.next =  raw[self.hl*4:length]
         elif self.protocol == ipv4.UDP_PROTOCOL:
             self.next = udp(raw=raw[self.hl*4:length], prev=self)
